@@ -23,7 +23,8 @@ Definition pobs := (string * string * string * targs)%type.      (* field, tag, 
 Record meta := mkMeta {
   m_nested_vals : list (string * string);     (* leaf key (path without entered structs) -> rendered value *)
   m_flat_vals : list (string * string);
-  m_flat_props : list pobs
+  m_flat_props : list pobs;
+  m_flat_logs : list (path * string)          (* the twin's logger fields: path -> prefix (see clogs) *)
 }.
 
 Record case := mkCase {
@@ -33,7 +34,11 @@ Record case := mkCase {
   cok : bool;                       (* Run returned nil, no panic *)
   cprops : list pobs;               (* recorded by the user processor *)
   cchanged : list path;             (* fields whose value differs after Run *)
-  cmeta : option meta
+  cmeta : option meta;
+  cnamed : bool;                    (* the struct types have names (generated source); reflect.StructOf types have none *)
+  clogs : list (path * string)      (* every non-nil syslog.Logger field after Run: the prefix its logger was made for,
+                                       the component's own name written "@"; marked when it is not the shared logger
+                                       syslog.Pref hands out for that prefix *)
 }.
 
 (* ---- comparisons ------------------------------------------------------------------------------ *)
@@ -87,9 +92,21 @@ Fixpoint is_prefix (q p : path) : bool :=
 Definition model_props (c : case) : list pobs :=
   flat_map (fun tp => map pr_obs (properties_of tp (cshape c))) (cprocs c).
 
+(* the logger every logger point receives, according to the model (Scan.logger_points / logger_pref) *)
+Definition self_name : string := "@".
+
+Definition model_logs (named : bool) (procs : list tagproc) (sh : comp) : list (path * string) :=
+  flat_map (fun tp => if String.eqb (tp_tag tp) "logger"
+                      then map (fun pr => (pr_path pr, logger_pref self_name named pr)) (logger_points tp sh)
+                      else []) procs.
+
+Definition log_eqb (x y : path * string) : bool :=
+  list_eqb String.eqb (fst x) (fst y) && String.eqb (snd x) (snd y).
+
 Definition check_case (c : case) : bool :=
   cok c &&
   multiset_eqb pobs_eqb (model_props c) (cprops c) &&
+  multiset_eqb log_eqb (model_logs (cnamed c) (cprocs c) (cshape c)) (clogs c) &&
   (* the set of changed fields is exactly the footprint (every generated recognised tag is satisfiable
      and writes a non-zero value): each changed path lies at or below a footprint path, and each footprint
      path has a changed path at or below it *)
@@ -101,7 +118,8 @@ Definition check_case (c : case) : bool :=
   | Some m =>
       multiset_eqb pobs_eqb
         (flat_map (fun tp => map pr_obs (properties_of tp (flatten_all (cshape c)))) (cprocs c))
-        (m_flat_props m)
+        (m_flat_props m) &&
+      multiset_eqb log_eqb (model_logs (cnamed c) (cprocs c) (flatten_all (cshape c))) (m_flat_logs m)
   end.
 
 (* ---- the property on the observation ------------------------------------------------------------ *)
@@ -129,6 +147,44 @@ Fixpoint declared (tp : tagproc) (s : shape) : list pobs :=
 Definition declared_all (c : case) : list pobs :=
   flat_map (fun tp => flat_map (declared tp) (cshape c)) (cprocs c).
 
+(* the declared logger points: exported fields of type syslog.Logger carrying the logger tag, reached through entered
+   structs only; each with its path, the tag's value and arguments *)
+Fixpoint declared_logs (pre : path) (s : shape) : list (path * string * targs) :=
+  match s with
+  | Leaf n e tags k imp =>
+      if e && kind_is_logger k
+      then match find_tag "logger" tags with Some t => [(pre ++ [n], tg_val t, tg_args t)] | None => [] end
+      else []
+  | Sub n e anon byv tags imp fs =>
+      if enterable anon byv tags
+      then (fix go (l : list shape) : list (path * string * targs) :=
+              match l with [] => [] | x :: r => declared_logs (pre ++ [n]) x ++ go r end) fs
+      else []
+  end.
+
+Fixpoint lookup_log (p : path) (l : list (path * string)) : option string :=
+  match l with
+  | [] => None
+  | (q, v) :: r => if list_eqb String.eqb p q then Some v else lookup_log p r
+  end.
+
+(* "processed identically whether declared directly or inside embedded structs": a logger point receives the logger
+   the same tag yields on a field declared directly on the component ([logger_direct]: the tag's own prefix, else the
+   component's name) - wherever it is declared; only a tag that itself asks for the position (`embed` and no prefix)
+   is exempt when it lies inside an embedded struct ([direct_only] = false) *)
+Definition logs_as_declared (direct_only : bool) (sh : comp) (logs : list (path * string)) : bool :=
+  forallb (fun d => match d with
+                    | (p, v, a) =>
+                        if wants_position v a && negb (direct_only || Nat.eqb (List.length p) 1) then true
+                        else match lookup_log p logs with
+                             | Some got => String.eqb got (logger_direct self_name v)
+                             | None => false
+                             end
+                    end)
+          (flat_map (declared_logs []) sh).
+
+Definition has_logger_proc (c : case) : bool := existsb (fun tp => String.eqb (tp_tag tp) "logger") (cprocs c).
+
 Definition vals_eqb (a b : list (string * string)) : bool :=
   multiset_eqb (fun x y => String.eqb (fst x) (fst y) && String.eqb (snd x) (snd y)) a b.
 
@@ -138,11 +194,14 @@ Definition oracle_case (c : case) : bool :=
   forallb (writable_at (cprocs c) (cshape c)) (cchanged c) &&
   (* every processor (the user's included) was handed exactly the declared carriers of its tag *)
   multiset_eqb pobs_eqb (declared_all c) (cprops c) &&
-  (* embedded or declared directly: same values, same properties *)
+  (* every logger point holds the logger of a directly declared one *)
+  (negb (has_logger_proc c) || logs_as_declared false (cshape c) (clogs c)) &&
+  (* embedded or declared directly: same values, same properties, same loggers *)
   match cmeta c with
   | None => true
   | Some m => vals_eqb (m_nested_vals m) (m_flat_vals m) &&
-              multiset_eqb pobs_eqb (cprops c) (m_flat_props m)
+              multiset_eqb pobs_eqb (cprops c) (m_flat_props m) &&
+              (negb (has_logger_proc c) || logs_as_declared true (flatten_all (cshape c)) (m_flat_logs m))
   end.
 
 (* ---- non-triviality ----------------------------------------------------------------------------- *)
